@@ -64,6 +64,7 @@ func topicInit(t *Topic, join *ClientComMessage, h *Hub) {
 		err = types.ErrTopicNotFound
 	}
 
+failed:
 	// Failed to create or load the topic.
 	if err != nil {
 		// Remove topic from cache to prevent hub from forwarding more messages to it.
@@ -116,8 +117,10 @@ func topicInit(t *Topic, join *ClientComMessage, h *Hub) {
 	}
 
 	if t.isDeleted() {
-		// Someone deleted the topic while we were trying to create it.
-		return
+		// Someone deleted the topic while we were trying to create it: fail the load like above,
+		// the initiator and the queued requests have to be answered.
+		err = types.ErrTopicNotFound
+		goto failed
 	}
 
 	statsInc("LiveTopics", 1)
